@@ -138,7 +138,7 @@ def pose_update_both_frames(ego_q, ego_q2, crit_kind):
     key_pose = S.Pose("map", ego_q, tag="ego_key")
     e1, g1 = _render(key_pose, es1, gs1)
     f_key, _ = S.run_frame(key_pose, e1, g1, TARGETS, "default", crit, thr, metrics=metrics)
-    new_pose = S.Pose("map", ego_q2, tag="ego_new")
+    new_pose = S.Pose("map", ego_q2, tag="ego_new", reuse_buffer=True)
     e2, g2 = _render(new_pose, es2, gs2, unix_time=50000)
     f_map, _ = S.run_frame(new_pose, e2, g2, TARGETS, "default", crit, thr, metrics=metrics, frame_name="1",
                            unix_time=50000, derive_from=f_key.frame_ground_truth)
